@@ -3,6 +3,9 @@ import ModbusModel.Lemmas.Tcp
 import ModbusModel.Lemmas.Framed
 import ModbusModel.Lemmas.Encode
 import ModbusModel.Model.Codec
+import ModbusModel.Lemmas.Call
+import ModbusModel.Lemmas.ServeSafe
+import ModbusModel.Props.C20
 /-
   C03 – No byte sequence can crash, hang or bloat a decoder, client or server.
 
@@ -130,6 +133,49 @@ theorem encoders_no_panic (k : Kind) (h : Hdr) (req : Request) (rsp : Response) 
       · simp
       · rename_i n hs
         simp [encodeResponseResultAsserts, (responseAsserts_of_size rsp n hs).1]
+
+theorem classify_ne_panic (h1 h2 : Hdr) (fc : FunctionCode) (res : ResponseResult) :
+    classify h1 fc h2 res ≠ .panic := by
+  unfold classify
+  cases res <;> simp only <;> split <;> (try split) <;> simp
+
+/-- **a client call never panics**: from any client state, for any request, whatever the
+    transport does on its read and write side and wherever the caller stops polling -/
+theorem call_never_panics (c : Client) (req : Request) (t : Transport) (b : Budget) :
+    (c.call req t b).1 ≠ .done .panic := by
+  intro h
+  unfold Client.call at h
+  by_cases hb : b = some 0
+  · simp [hb] at h
+  · simp only [hb, if_false] at h
+    cases hk : c.kind <;> simp only [hk] at h <;>
+    · revert h
+      (repeat' split) <;> intro h <;> simp_all <;>
+      first
+        | exact classify_ne_panic _ _ _ _ h
+        | (rename_i heq
+           have := awaitNextB_ne_panic _ (clientDecoder_noPanic _) _ _ _ _ _ (congrArg Prod.fst heq)
+           exact this)
+        | (exact (encoders_no_panic .tcp _ req default).1 (by assumption))
+        | (exact (encoders_no_panic .rtu _ req default).1 (by assumption))
+
+/-- … and neither does what a typed method makes of its result (C20 `typed_never_panics` lifted
+    through the whole call, C06 `call_result_decoded`): the typed client API cannot be crashed
+    by anything a peer sends, in any fragmentation, nor by any transport fault -/
+theorem typed_call_never_panics (op : TypedOp) (c : Client) (t : Transport) (b : Budget) (x : CallResult)
+    (h : (c.call op.request t b).1 = .done x) : op.project x ≠ .panic := by
+  rcases Modbus.Props.C06.call_result_decoded c op.request t b x h with ⟨k, rfl⟩ | rfl | ⟨rh, res, hx, pdu, hd⟩
+  · cases op <;> simp [TypedOp.project, Typed.ofCall]
+  · exact absurd h (call_never_panics c op.request t b)
+  · rw [hx]
+    exact Modbus.Props.C20.typed_never_panics op (stampedHdr c) rh pdu res hd
+
+/-- **a server connection task never panics**: whatever bytes arrive in whatever fragmentation,
+    whatever the service answers (replies of any size, exceptions, nothing) and whatever the
+    transport does when written to -/
+theorem server_task_never_panics (k : Kind) (svc : Service) (t : Transport) :
+    (process k svc t).1 ≠ .panicked :=
+  processLoop_never_panics k svc (serverDecoder_noPanic k) _ _ _ _ _
 
 -- non-vacuity: the former crash inputs (D1, D2) are plain errors now
 example : decodeRequest [0x0F, 0, 0, 0, 0x11, 1, 0xFF] = .err .invalidData := by decide
